@@ -1,6 +1,9 @@
 package main
 
 import (
+	"sync/atomic"
+	"path/filepath"
+	"os"
 	"fmt"
 
 	"verifharness/a2j"
@@ -13,6 +16,8 @@ import (
 func init() {
 	register("C01", "exploration", runC01, replayC01)
 }
+
+var c01SaveSeq int64
 
 func c01Case(r *mon.Run, ci corpusItem) {
 	name, src := ci.source()
@@ -42,6 +47,23 @@ func c01Case(r *mon.Run, ci corpusItem) {
 			if r.Verbose {
 				fmt.Printf("--- rendered output ---\n%s\n", out)
 			}
+		} else if ci.Seed&7 == 3 {
+			// the other way of rendering a File: Save, here over an older and longer version of the same file (a
+			// generator re-run after a declaration was dropped); what is on disk must be the same program
+			dir := filepath.Join(mon.VerifDir, "bin", fmt.Sprintf("c01-save-%d", os.Getpid()))
+			os.MkdirAll(dir, 0o755)
+			path := filepath.Join(dir, fmt.Sprintf("f%d.go", atomic.AddInt64(&c01SaveSeq, 1)))
+			os.WriteFile(path, append(append([]byte(nil), out...), []byte("\n// Leftover is what an earlier run generated.\nfunc leftoverOfAnEarlierRunQ() {}\n")...), 0o644)
+			var serr error
+			if p, what := mon.Guard(func() { serr = b.File.Save(path) }); p || serr != nil {
+				r.Violate("render-error", c, "%s: Render succeeds but Save fails: %v %s", shortPath(name), serr, what)
+			} else if saved, rerr := os.ReadFile(path); rerr != nil {
+				r.Inconclusive("cannot read back a saved file: " + rerr.Error())
+			} else if diff := b.Compare(saved); diff != "" {
+				r.Violate("ast-differs", c, "%s: the file written by Save over an older, longer version is not the program: %s", shortPath(name), diff)
+			}
+			os.Remove(path)
+			r.Count("files_also_saved_over_an_older_version", 1)
 		}
 	}
 	r.Eval(name+fmt.Sprint(ci.Seed), len(b.OrigDecls) > 0)
@@ -57,12 +79,13 @@ func c01Case(r *mon.Run, ci corpusItem) {
 }
 
 func runC01(r *mon.Run) {
-	r.SetRule("every .go file of the corpora (quick: vendored corpus 589 files + /repo + seeded sample of 1,500 files of GOROOT/src + 400 generated programs; thorough: vendored + /repo + all of GOROOT/src + go1.26 src + module cache, two translator seeds, + 6,000 generated programs) is transcribed with the documented DSL element per construct (random choice among equivalent documented spellings; for odd translator seeds one expression in ten is kept as a template whose Clone is used while a sibling Clone is extended afterwards), rendered, re-parsed and compared with the source AST. non-trivial = translated file with >=1 declaration; distinct by (file, translator seed). Skipped inputs are counted by reason under observed.skip.*")
+	r.SetRule("every .go file of the corpora (quick: vendored corpus 589 files + /repo + seeded sample of 1,500 files of GOROOT/src + 400 generated programs; thorough: vendored + /repo + all of GOROOT/src + go1.26 src + module cache, two translator seeds, + 6,000 generated programs) is transcribed with the documented DSL element per construct (random choice among equivalent documented spellings; for odd translator seeds one expression in ten is kept as a template whose Clone is used while a sibling Clone is extended afterwards), rendered, re-parsed and compared with the source AST; one file in eight is also written with Save over an older, longer version of itself and read back. non-trivial = translated file with >=1 declaration; distinct by (file, translator seed). Skipped inputs are counted by reason under observed.skip.*")
 	r.Assume("inputs outside the translator's domain are skipped, never judged: unparsable files, dot imports, a path imported twice, unresolvable package names, import names C05 obliges jennifer to replace, imports never used through a selector")
 	r.Assume("normalisations are limited to what the statement exempts (comments, layout, redundant parentheses, empty statements removed by gofmt) and to Dict's documented reordering of keyed literals")
 	c01NegControls(r)
 	items := corpusList(r, "C01", 1500, 400, 6000, 2)
 	mon.Parallel(len(items), func(i int) { c01Case(r, items[i]) })
+	os.RemoveAll(filepath.Join(mon.VerifDir, "bin", fmt.Sprintf("c01-save-%d", os.Getpid())))
 }
 
 func replayC01(r *mon.Run, c mon.Case) {
